@@ -1,6 +1,7 @@
 import GarbleVerif.Proofs.BitCore
 import GarbleVerif.Proofs.BitShape
 import GarbleVerif.Proofs.BitMatch
+import GarbleVerif.Proofs.MatchComplete
 /-!
 # The bit-level evaluation of the core fragment refines the source semantics
 
@@ -255,6 +256,18 @@ theorem arms_after_match : ∀ (arms : Arms) (benv1 : BEnv) (ts : STy) (sb : Lis
         · simp at h
 
 /-- the arm loop against `evalArms`: the first arm whose pattern matches decides value, panic and variables -/
+theorem lastIsCatchAll_mem : ∀ (arms : Arms), lastIsCatchAll arms = true → ∃ x, Pat.ident x ∈ armPats arms
+  | .nil, h => by simp [lastIsCatchAll] at h
+  | .cons p e .nil, h => by
+    cases p with
+    | ident x => exact ⟨x, by simp [armPats]⟩
+    | _ => simp [lastIsCatchAll] at h
+  | .cons p e (.cons p2 e2 rest), h => by
+    have h' : lastIsCatchAll (.cons p2 e2 rest) = true := by
+      cases p <;> simpa [lastIsCatchAll] using h
+    obtain ⟨x, hx⟩ := lastIsCatchAll_mem _ h'
+    exact ⟨x, by simp only [armPats, List.mem_cons] at hx ⊢; exact Or.inr hx⟩
+
 theorem arms_ok (prog : Prog) (N : Nat) (ihLow : ∀ f, f ≤ N → ExprOK prog f) :
     ∀ (arms : Arms) (f : Nat), f ≤ N + 1 → ∀ (env1 : Src.Env) (benv1 : BEnv) (ts : STy) (v : Val) (sb : List Bool),
       Rel ts v sb → EnvRel env1 benv1 → ∀ (ret : Option (VTy × List Bool)) (st' : ArmSt),
@@ -263,10 +276,10 @@ theorem arms_ok (prog : Prog) (N : Nat) (ihLow : ∀ f, f ≤ N → ExprOK prog 
       | .ok (r, env2) => st'.1 = true ∧ ∃ t bs, st'.2.1 = some (t, bs) ∧ VRel t r bs ∧ st'.2.2.1 = none ∧
           EnvRel env2 st'.2.2.2
       | .error (.panic k) => st'.2.2.1 = some k
-      | .error (.stuck _) => lastIsCatchAll arms = false
+      | .error (.stuck _) => ∀ q, q ∈ armPats arms → matchPat q v = none
       | .error .fuel => True
   | .nil, f, _, env1, benv1, ts, v, sb, _, _, ret, st', _ => by
-    cases f <;> simp [evalArms, lastIsCatchAll]
+    cases f <;> simp [evalArms, armPats]
   | .cons p e rest, f, hf, env1, benv1, ts, v, sb, hrel, henv, ret, st', h => by
     cases f with
     | zero => simp [evalArms]
@@ -291,13 +304,29 @@ theorem arms_ok (prog : Prog) (N : Nat) (ihLow : ∀ f, f ≤ N → ExprOK prog 
             -- the pattern does not match: nothing is selected, go on with the rest
             simp only [Bool.false_eq_true, if_false, Bool.not_false, Bool.and_false, Bool.or_false] at h ⊢
             rw [muxEnv_false _ _ (by rw [hout])] at h
-            have hlast : lastIsCatchAll (.cons p e rest) = lastIsCatchAll rest := by
-              cases p <;> cases rest <;> simp [lastIsCatchAll]
-              -- an identifier pattern always matches
-              all_goals (simp [patBits] at hpb)
-            have ih := fun ret' (hh : bitArms benv1 ts sb rest (false, ret', none, benv1) = some st') =>
-              arms_ok prog N ihLow rest f (by omega) env1 benv1 ts v sb hrel henv ret' st' hh
-            rw [hlast]
+            have hp_none : matchPat p v = none := by simpa using hmp
+            have ih : ∀ ret', bitArms benv1 ts sb rest (false, ret', none, benv1) = some st' →
+                match evalArms f prog env1 v rest with
+                | .ok (r, env2) => st'.1 = true ∧ ∃ t bs, st'.2.1 = some (t, bs) ∧ VRel t r bs ∧ st'.2.2.1 = none ∧
+                    EnvRel env2 st'.2.2.2
+                | .error (.panic k) => st'.2.2.1 = some k
+                | .error (.stuck _) => ∀ q, q ∈ armPats (.cons p e rest) → matchPat q v = none
+                | .error .fuel => True := by
+              intro ret' hh
+              have X := arms_ok prog N ihLow rest f (by omega) env1 benv1 ts v sb hrel henv ret' st' hh
+              revert X
+              cases evalArms f prog env1 v rest with
+              | ok res => exact id
+              | error er =>
+                cases er with
+                | panic k => exact id
+                | stuck w =>
+                  intro X q hq
+                  simp only [armPats, List.mem_cons] at hq
+                  rcases hq with rfl | hq
+                  · exact hp_none
+                  · exact X q hq
+                | fuel => exact id
             split at h
             · split at h
               · exact ih _ h
@@ -835,7 +864,22 @@ theorem exprOK_succ (prog : Prog) (fuel : Nat) (ihE : ExprOK prog fuel) (ihS : S
               rw [hea] at harms
               cases er with
               | panic k => simp only [ResRel, seqP]; exact harms
-              | stuck w => rw [hlast] at harms; simp at harms
+              | stuck w =>
+                -- no arm matches a value of the scrutinee's type: impossible, the arms cover it
+                simp only at harms
+                exfalso
+                simp only [matchCovers, Bool.or_eq_true] at hlast
+                rcases hlast with hl | hu
+                · obtain ⟨x, hx⟩ := lastIsCatchAll_mem arms hl
+                  have := harms _ hx
+                  simp [matchPat] at this
+                · have hnone : uncovered ts.toTy (armPats arms) = none := by
+                    cases hu' : uncovered ts.toTy (armPats arms) with
+                    | none => rfl
+                    | some w => rw [hu'] at hu; simp at hu
+                  obtain ⟨q, hq, hs⟩ := uncovered_complete ts.toTy (armPats arms) hnone v hrel.hasType_encode.1
+                  rw [harms q hq] at hs
+                  simp at hs
               | fuel => trivial
             | ok resa =>
               obtain ⟨r, env2⟩ := resa
